@@ -32,6 +32,43 @@ fn enc_one(e: &'static Encoding, c: char) -> Option<Vec<u8>> {
     let (cow, _, err) = e.encode(s); if err { None } else { Some(cow.to_vec()) }
 }
 
+/// Reference decoder written from the property text (independent of the Coq model and of the implementation's
+/// algorithm): left to right, the current codepage starts as Latin-1 (1252); `^` + codepage letter switches and is
+/// dropped, `^8` switches to Latin-1 and is kept; double-byte lead bytes take their trail byte with them (so a trail
+/// byte 0x5E is never read as a marker - the implementation's known finding); tables = LFS's Windows codepages.
+/// Returns None when a segment is not valid in its codepage (error recovery is not specified).
+pub fn ref_decode(bytes: &[u8]) -> Option<String> {
+    let mut cur: &'static Encoding = lfs_encoding('L'); let mut out = String::new(); let mut seg: Vec<u8> = vec![]; let mut i = 0;
+    fn flush(cur: &'static Encoding, seg: &mut Vec<u8>, out: &mut String) -> bool { if seg.is_empty() { return true; } let (d, err) = cur.decode_without_bom_handling(seg); let d = d.to_string(); seg.clear(); if err { return false; } out.push_str(&d); true }
+    while i < bytes.len() {
+        let b = bytes[i];
+        if b == b'^' && i + 1 < bytes.len() && MARKERS.as_bytes().contains(&bytes[i + 1]) {
+            if !flush(cur, &mut seg, &mut out) { return None; }
+            let l = bytes[i + 1] as char;
+            if l == '8' { out.push_str("^8"); cur = lfs_encoding('L'); } else { cur = lfs_encoding(l); }
+            i += 2; continue;
+        }
+        if !cur.is_single_byte() && b >= 0x81 && i + 1 < bytes.len() {
+            // a lead byte takes the next byte along (Shift_JIS half-width katakana A1..DF are single bytes)
+            let single = cur == encoding_rs::SHIFT_JIS && (0xa1..=0xdf).contains(&b);
+            if !single { seg.push(b); seg.push(bytes[i + 1]); i += 2; continue; }
+        }
+        seg.push(b); i += 1;
+    }
+    if !flush(cur, &mut seg, &mut out) { return None; }
+    Some(out)
+}
+/// does the byte string contain a double-byte character with trail byte 0x5E directly before a marker letter (known finding)?
+pub fn has_trail5e_marker(bytes: &[u8]) -> bool { bytes.windows(3).any(|w| w[0] >= 0x81 && w[1] == 0x5e && MARKERS.as_bytes().contains(&w[2])) }
+/// the decode-side oracle on one byte string: implementation vs reference decoder (escaped carets are C12's subject)
+pub fn decode_oracle(v: &[u8], st: &mut Stats) {
+    if v.windows(2).any(|w| w == b"^^") { return; }
+    let Some(want) = ref_decode(v) else { return };
+    if want.contains('\u{fffd}') { return; }
+    let Some(got) = guard(|| to_lossy_string(v).to_string()) else { return };
+    st.evaluations += 1;
+    if got != want { st.fail_class(if has_trail5e_marker(v) { "c10-trail-byte-5e-before-letter" } else { "" }, format!("[C10] bytes {} decode to {:?}, the codepage rules give {:?}", hex(v), got, want), format!("bytes:{}={}", hex(v), cps(&want))); }
+}
 pub fn trail5e_char(c: char) -> bool { !c.is_ascii() && LETTERS.iter().any(|l| enc_one(lfs_encoding(*l), c).map(|w| w.len() == 2 && w[1] == 0x5e).unwrap_or(false)) }
 
 // ---------------------------------------------------------------- C12
@@ -114,6 +151,7 @@ pub fn run_c10(a: &Args) {
                 st.fail_class(if in_class { "c10-trail-byte-5e-before-letter" } else { "" }, format!("[C10] {:?} -> bytes {} -> {:?}, expected {:?}", s, hex(&b), back, want), id.clone());
             }
         }
+        if s.contains('^') { decode_oracle(&b, st); }
         (b, back)
     };
     if let Some(r) = &a.replay { if let Some(rest) = r.strip_prefix("bytes:") { let (h, want) = rest.split_once('=').unwrap(); let got = cps(&to_lossy_string(&unhex(h))); if got == want { println!("PASS {got}"); return } else { println!("FAIL bytes {h} decode to {got}, expected {want}"); std::process::exit(1) } } }
@@ -208,10 +246,21 @@ pub fn run_c10(a: &Args) {
     // --- 4. decode side: every byte value after every marker, random bytes (totality; model compared on valid sequences)
     for l in MARKERS.chars() { for b in 0..=255u8 { for tail in [vec![], vec![b'a'], vec![0x5e, b'L'], vec![0x40]] {
         let mut v = vec![b'x', b'^', l as u8, b]; v.extend(&tail); st.evaluations += 1;
+        decode_oracle(&v, &mut st);
         match guard(|| to_lossy_string(&v).to_string()) { None => st.fail("[C10] to_lossy_string panics".into(), format!("bytes {}", hex(&v))), Some(sv) => { if !sv.contains('\u{fffd}') && b != 0x5e && !(b >= 0x80 && tail.first() == Some(&0x5e)) { out.case(&format!("tostring {}", hex(&v)), &cps(&sv)); } } }
     } } }
     st.exhaustive.push("every byte value after every marker letter (11 x 256 x 4 continuations)".into());
-    for _ in 0..(if a.thorough() { 500_000 } else { 30_000 }) { let len = rng.range(0, 24) as usize; let mut v = rng.bytes(len); for i in 0..v.len() { if rng.chance(1, 5) { v[i] = b'^'; } else if rng.chance(1, 6) { v[i] = *rng.pick(MARKERS.as_bytes()); } } st.evaluations += 1; if guard(|| to_lossy_string(&v).to_string()).is_none() { st.fail("[C10] to_lossy_string panics".into(), format!("bytes {}", hex(&v))); } }
+    for _ in 0..(if a.thorough() { 500_000 } else { 30_000 }) { let len = rng.range(0, 24) as usize; let mut v = rng.bytes(len); for i in 0..v.len() { if rng.chance(1, 5) { v[i] = b'^'; } else if rng.chance(1, 6) { v[i] = *rng.pick(MARKERS.as_bytes()); } } st.evaluations += 1; if guard(|| to_lossy_string(&v).to_string()).is_none() { st.fail("[C10] to_lossy_string panics".into(), format!("bytes {}", hex(&v))); } decode_oracle(&v, &mut st); }
+    // marker-rich valid sequences: two or three segments in different codepages, with ^8 and repeated / trailing markers
+    for _ in 0..(if a.thorough() { 200_000 } else { 20_000 }) {
+        let mut v: Vec<u8> = vec![];
+        for _ in 0..rng.range(1, 4) {
+            if rng.chance(4, 5) { v.push(b'^'); v.push(*rng.pick(MARKERS.as_bytes())); if rng.chance(1, 8) { v.push(b'^'); v.push(*rng.pick(MARKERS.as_bytes())); } }
+            let cur = v.iter().rposition(|b| *b == b'^').and_then(|i| v.get(i + 1)).map(|l| if *l == b'8' { 'L' } else { *l as char }).unwrap_or('L');
+            if let Some(p) = pools.get(&cur) { for _ in 0..rng.range(0, 4) { if rng.chance(1, 3) { v.push(rng.range(0x20, 0x7e) as u8); } else { let c = *rng.pick(p); if let Some(w) = enc_one(lfs_encoding(cur), c) { v.extend(w); } } } }
+        }
+        decode_oracle(&v, &mut st);
+    }
     st.rule = "real to_lossy_bytes / to_lossy_string: the implementation's per-letter tables observed through the decoder vs Microsoft's cp125x/932/936/949/950 tables (Python codecs) on every defined byte / byte pair; encoding_rs oracle hypotheses on every scalar below U+30000; random strings over the union repertoire incl. BOM look-alikes, 0x5E-trail characters before marker letters, unrepresentable characters; every byte after every marker; random bytes; distinct non-ASCII strings counted".into();
     st.sample("tobytes 11b,161 (ěš) -> 5e45ec9a (^E EC 9A)".into());
     out.finish(&st);
